@@ -5886,7 +5886,8 @@ class FrameBury(Instruction):
 
     @property
     def stack_push_size(self) -> int:
-        return 1
+        # the popped value is written into the frame slot, nothing is pushed.
+        return 0
 
     def __str__(self) -> str:
         return f"frame_bury {self._index}"
